@@ -80,3 +80,62 @@ def run(prog, tier, repo):
                 res.ok(key, b.loc(fe[0][3]), f'`{first}` is lowered before `{later}` on every path that lowers both')
     res.floor('ordered child pairs found in the lowering', n, 5)
     return [res]
+
+
+# ---------------------------------------------------------------------------------------------------------------------
+# RESOLVED-ORDINAL (C01): the checker resolves names to positions - the declared index of a field, the tag of a variant -
+# and stores them in integer fields of the typed syntax tree. The lowering has no access to the declarations any more, so a
+# resolved ordinal it never reads means it substitutes its own guess (the position at which the element happens to be
+# written), which is wrong as soon as the source lists things in another order than the declaration.
+
+def run_resolved_ordinal(prog, tier, repo):
+    from ..core import field_reads
+    from ..dataflow import operand_root
+    res = RuleResult('RESOLVED-ORDINAL', 'C01: every ordinal the checker resolves and stores in the typed syntax tree (field index, '
+                     'variant tag) is read by the source-to-HIR lowering')
+    computed = {}
+    for b in prog.bodies.values():
+        if b.crate != 'samlang_checker':
+            continue
+        for bl in b.blocks:
+            if bl.cleanup:
+                continue
+            for st in bl.stmts:
+                if st[0] != 'a' or st[2][0] != 'agg' or st[2][1][0] != 'adt':
+                    continue
+                aid = st[2][1][1]
+                adt = prog.adts.get(aid)
+                if adt is None or not adt.name.startswith('samlang_ast::source'):
+                    continue
+                vi = st[2][1][2]
+                fields = adt.variants[vi].fields
+                for k, o in enumerate(st[2][2]):
+                    if k >= len(fields) or o[0] == 'k':
+                        continue
+                    ft = fields[k].ty
+                    if not (ft.k == 'prim' and ft.s in ('usize', 'i32', 'u32', 'isize', 'i64', 'u64')):
+                        continue
+                    r, pth = operand_root(b, o)
+                    fs = [e for e in pth if e[0] == 'f']
+                    if fs and fs[-1][1] == aid and fs[-1][2] == vi and fs[-1][3] == k:
+                        continue        # carried over from the untyped node
+                    computed.setdefault((aid, vi, k), b)
+    readers = {}
+    for b in prog.bodies.values():
+        if b.crate == 'samlang_compiler' and '::hir_lowering::' in b.name + '::':
+            for k, v in field_reads(b).items():
+                readers.setdefault(k, (b, v))
+    for (aid, vi, k), wb in sorted(computed.items(), key=lambda x: str(x[0])):
+        adt = prog.adts[aid]
+        f = adt.variants[vi].fields[k]
+        nm = adt.name.split('source::')[-1]
+        key = f'ordinal:{nm}.{f.name}'
+        if (aid, vi, k) in readers:
+            rb, line = readers[(aid, vi, k)]
+            res.ok(key, rb.loc(line), f'resolved by {wb.name.split("::")[-1]}, read by {rb.name.split("::")[-1]}')
+        else:
+            res.violation(key, f'{adt.file}:{adt.line}', f'`{nm}.{f.name}` is resolved by the checker ({wb.name}) but never read by the '
+                          f'source-to-HIR lowering, which therefore uses its own notion of position: a struct pattern that lists '
+                          f'fields in another order than the declaration binds the wrong fields')
+    res.floor('resolved ordinals', len(computed), 3)
+    return [res]
